@@ -413,7 +413,7 @@ End Coherence.
    `IAlloc d` followed by `post` with the copies inserted.  s0 is the source of the cast chain. *)
 Theorem realize_coherent (trips : nat -> nat) (d src td ts s0 : nat) (others : list nat) (post : list item)
   (s : state) :
-  (forall v, alias s v <> d) ->                        (* d is not yet the name of a buffer *)
+  (forall v, v <> d -> alias s v <> d) ->              (* no other value names the buffer the allocation creates *)
   alias s src = alias s s0 ->                          (* the chain of casts aliases its source *)
   In (alias s s0) others -> In s0 others -> ~ In d others ->
   (forall v, alias s v = alias s s0 -> In v others) -> (* every current alias of the source buffer *)
@@ -424,8 +424,8 @@ Theorem realize_coherent (trips : nat -> nat) (d src td ts s0 : nat) (others : l
 Proof.
   intros Hfresh Hsrc HBo Hs0o Hdo Hal Hsafe t t'.
   set (B := alias s s0) in *.
-  assert (HAB : d <> B) by (intros E; apply (Hfresh s0); symmetry; exact E).
   assert (Hs0 : s0 <> d) by (intros E; apply Hdo; rewrite <- E; exact Hs0o).
+  assert (HAB : d <> B) by (intros E; apply (Hfresh s0 Hs0); symmetry; exact E).
   unfold safe_block in Hsafe. pose proof Hsafe as Hflat.
   assert (R : Rel d s0 B others false false (exec_item trips (ICast d src td ts) s) (exec_item trips (IAlloc d) s)).
   { cbn [exec_item]. constructor; cbn [alias memo trace].
@@ -434,7 +434,7 @@ Proof.
     - apply upd_same.
     - rewrite upd_other by exact Hs0. reflexivity.
     - intros v. unfold upd. destruct (v =? d)%nat eqn:E; [left; apply Nat.eqb_eq; exact E|intros H; right; apply Hal; exact H].
-    - intros v. unfold upd. destruct (v =? d)%nat; [congruence|apply Hfresh].
+    - intros v. unfold upd. destruct (v =? d)%nat eqn:E; [congruence|apply Hfresh; apply Nat.eqb_neq; exact E].
     - intros b Hb _. rewrite upd_other by exact Hb. reflexivity.
     - reflexivity.
     - intros _. rewrite upd_other by congruence. reflexivity.
@@ -463,3 +463,22 @@ Example realize_coherent_nonvacuous :
   fst (ins_list 2%nat 0%nat false false [IOp 0 [(2, KIn); (3, KOut)]; IOp 1 [(3, KIn); (2, KOutAcc)]]%nat) =
     [ICopy 0 2; IOp 0 [(2, KIn); (3, KOut)]; IOp 1 [(3, KIn); (2, KOutAcc)]; ICopy 2 0]%nat.
 Proof. repeat split; reflexivity. Qed.
+
+(* non-vacuity of the whole hypothesis set: from the initial state (every value names its own buffer),
+   the cast 2 := cast 0 followed by reader / accumulating writer / writer / reader *)
+Example realize_coherent_applies :
+  let post := [IOp 0 [(2, KIn); (3, KOut)]; IOp 1 [(3, KIn); (2, KOutAcc)]; IOp 2 [(2, KOut)]; IOp 3 [(2, KIn); (4, KOut)]]%nat in
+  let t := exec_list (fun _ => 1%nat) (ICast 2 0 1 0 :: post) init_state in
+  let t' := exec_list (fun _ => 1%nat) (IAlloc 2 :: fst (ins_list 2 0 false false post)) init_state in
+  trace t = trace t' /\ forall b, b <> 2%nat -> memo t b = memo t' b.
+Proof.
+  apply (realize_coherent (fun _ => 1%nat) 2 0 1 0 0 [0%nat]); cbn [init_state alias].
+  - intros v H. exact H.
+  - reflexivity.
+  - left. reflexivity.
+  - left. reflexivity.
+  - intros [H|[]]. discriminate.
+  - intros v H. left. symmetry. exact H.
+  - reflexivity.
+Qed.
+
